@@ -10,7 +10,6 @@ import (
 	"io/fs"
 	"os"
 	"path"
-	"path/filepath"
 
 	"github.com/rs/zerolog/log"
 
@@ -35,7 +34,7 @@ func NewTestRenumberer() *TestRenumberer {
 
 func (t *TestRenumberer) RenumberTests(checkOnly bool, gitHubOutput bool, ctxt *context.Context) error {
 	failed := false
-	err := filepath.WalkDir(ctxt.RegressionTestsDir(), func(path string, d fs.DirEntry, err error) error {
+	err := utils.WalkDir(ctxt.RegressionTestsDir(), func(path string, d fs.DirEntry, err error) error {
 		if err != nil {
 			// abort
 			return err
